@@ -85,6 +85,13 @@ func C18(c *fw.Ctx) {
 			}
 			// a regex-heavy project in every batch: the lazily generated example is the classic shared state
 			cj.Projects[0] = proto.ConcProject{Name: "regex.jst", Content: []byte("JSIGHT 0.3\nTYPE @r regex\n  /[a-z]{3}-\\d+/\nTYPE @o\n  {\"id\": @r}\nGET /a\n  200 @r\n  201 regex\n    /x+y/\n  202 @o\n")}
+			// builds that share Option values (a caller that keeps its options in variables): the same macro document built with the
+			// value ban(ENUM) alone, with ban(ENUM)+ban(MACRO), and with ban(TAG)+ban(ENUM); every build must be judged by its own set
+			macroDoc := []byte("JSIGHT 0.3\nMACRO @m\n(\n  200 any\n)\nTYPE @t\n  {\"k\": 1}\nGET /a\n  PASTE @m\nGET /b\n  200 @t\n")
+			cj.Projects[1] = proto.ConcProject{Name: "opt-enum.jst", Content: macroDoc, SharedBan: [][]string{{"ENUM"}}}
+			cj.Projects[2] = proto.ConcProject{Name: "opt-enum-macro.jst", Content: macroDoc, SharedBan: [][]string{{"ENUM"}, {"MACRO"}}}
+			cj.Projects[5] = proto.ConcProject{Name: "opt-tag-enum.jst", Content: macroDoc, SharedBan: [][]string{{"TAG"}, {"ENUM"}}}
+			cj.Projects[6] = proto.ConcProject{Name: "opt-enum-type.jst", Content: macroDoc, SharedBan: [][]string{{"ENUM"}, {"TYPE"}}}
 			// every other batch is a cold start: a fresh process whose first use of the library is concurrent
 			j := &proto.Job{ID: fmt.Sprintf("conc/batch-%d", b), Conc: cj}
 			if b%2 == 1 {
